@@ -1,5 +1,5 @@
 (* Entry points of the executable model used by the correspondence check (extracted). *)
-From RP Require Import Base Stream Target Socks Http Frames Frag MiluSyntax MiluParser MiluDoc MiluEval Dispatch MiluSound MiluWf Reload Lb Callbacks RtLeaf MiluRoundtrip.
+From RP Require Import Base Stream Target Socks Http Frames Frag MiluSyntax MiluParser MiluDoc MiluEval Dispatch MiluSound MiluWf Reload Lb Callbacks RtLeaf MiluRoundtrip Idle.
 From RP.Gen Require Gen_ladder.
 
 Definition HFUEL : nat := 4000.   (* header lines per HTTP head in generated cases are far fewer *)
@@ -55,3 +55,12 @@ Definition x_client_bytes (p : N) (tgt : target) (msg : bytes) (k : N) : bytes :
 Definition x_rt_print := m_print.
 Definition x_rt_denote := m_denote.
 Definition x_rt_num := TNum.
+
+(* idle check with last_read placed delta ms from `now` (C13); sign = true: in the past *)
+Definition x_idle_now : N := 1000000000000.
+Definition x_idle_check (period : N) (c_past : bool) (dc : N) (s_past : bool) (ds : N) : bool * bool * bool :=
+  let lc := if c_past then x_idle_now - dc else x_idle_now + dc in
+  let ls := if s_past then x_idle_now - ds else x_idle_now + ds in
+  (is_timeout period lc x_idle_now, is_timeout period ls x_idle_now, idle_close period lc ls x_idle_now).
+Definition x_tcp_period := tcp_period.
+Definition x_udp_period := udp_period.
